@@ -208,13 +208,24 @@ def closed_cond(rng, g, var_ids, depth=1, disj=False):
     return parts
 
 
-def gen_rule(rng, g, var_ids, depth, kinds, counter):
-    node = {'tag': counter[0], 'cond': closed_cond(rng, g, var_ids), 'kids': []}
+def gen_rule(rng, g, var_ids, depth, kinds, counter, bound_ctx=False):
+    """`bound_ctx`: the node is only reached under a branch whose (closed) condition held, so every variable is bound
+    there and its own condition may mention any non-empty subset of the variables; the root and the alternatives on
+    the root's alternative chain are reached with unbound variables and stay closed."""
+    if bound_ctx and len(var_ids) > 1 and rng.random() < 0.6:
+        sub = rng.sample(var_ids, rng.randint(1, len(var_ids) - 1))
+        cond = closed_cond(rng, g, sub)
+        g.var_ids = var_ids
+    else:
+        cond = closed_cond(rng, g, var_ids)
+    node = {'tag': counter[0], 'cond': cond, 'kids': []}
     counter[0] += 1
     if depth > 0:
         # up to three blocks per node: a refinement followed by two alternatives (or any other order) must occur
         for _ in range(rng.choice((0, 1, 1, 2, 2, 3) if depth <= 2 else (0, 1, 1, 2))):
-            node['kids'].append((rng.choice(kinds), gen_rule(rng, g, var_ids, depth - 1, kinds, counter)))
+            kind = rng.choice(kinds)
+            node['kids'].append((kind, gen_rule(rng, g, var_ids, depth - 1, kinds, counter,
+                                                bound_ctx=True if kind == 'ref' else bound_ctx)))
     return node
 
 
@@ -290,7 +301,8 @@ def c12(report, rng, tier, findings):
                       'args': [('var', v) for v in ids], 'rule': rule})
     report.rule = ("random rule trees to depth 3 built with Add conclusions, refinement and alternative (0-3 blocks per node in any order; "
                    "refinements under the base, under refinements and under alternatives; alternatives under refinements; "
-                   "chains of alternatives), branch-closed conjunctive conditions over 1-2 variables, overlapping and exclusive "
+                   "chains of alternatives), conjunctive conditions over 1-2 variables - mentioning every variable on the root's "
+                   "alternative chain, any non-empty subset below a refinement (where every variable is bound) -, overlapping and exclusive "
                    "sibling conditions; the multiset of (conclusion, fields) is compared with a recursive ripple-down-rules "
                    "reference interpreter and the constructed tree with the model's construction; caching on and off, two "
                    "evaluations; non-trivial = the tree has at least two blocks and at least two different conclusions are produced")
